@@ -13,6 +13,16 @@ PROPS = {
                  'non-empty span of the buffer, rule start/end pairing also on error paths, isWordChar table',
         'not_decided': ['that a later change to P re-executes the command (paper lemma L1)', 'file reading'],
     },
+    'C13': {
+        'units': ['fileinfo', 'fswrap'],
+        'design_ref': 'DESIGN.md section 4, C13',
+        'claim': 'FileInfo ==/!= is exactly equality of device, inode, size, both time fields and all 32 checksum bytes; isMissing is exactly '
+                 'the six zero scalars; getInfoForPath yields the all-zero record iff stat fails, never for an existing object, and copies the '
+                 'stat fields (mtime seconds and nanoseconds) one to one; the device-agnostic wrapper zeroes device and inode only; the '
+                 'checksum-only wrapper zeroes device, inode and mtime, keeps size and mode and takes the checksum of the same path; the MD5 '
+                 'hasher feeds every chunk read exactly once, finalises after the last chunk into the member copy() reads',
+        'not_decided': ['the real stat/readlink/MD5 (assumed models)', 'the symlink readlink path content'],
+    },
     'C17': {
         'units': ['ninja_lex'],
         'design_ref': 'DESIGN.md section 4, C17',
